@@ -1,1 +1,353 @@
-//! (reference for aria: to be written)
+//! ARIA, written from RFC 5794 "A Description of the ARIA Encryption Algorithm" (March 2010), following the RFC's
+//! own structure and names:
+//!   section 2.2   key scheduling part (KL, KR, CK1..3, W0..W3, ek1..ek17, dk1..dk17, number of rounds)
+//!   section 2.3.1 encryption process, 2.3.2 decryption process (same procedure with the dk)
+//!   section 2.4.1 round functions FO, FE; 2.4.2 substitution layers SL1, SL2 (S-boxes SB1..SB4);
+//!   section 2.4.3 diffusion layer A (sixteen byte equations y0..y15)
+//!   appendix A    example data (unit tests below)
+//! 128-bit strings are `u128` (byte x0 of the RFC = most significant byte); byte strings are big-endian.
+//!
+//! S-boxes.  The RFC prints SB1..SB4 as tables; all four are *computed* here from their definitions in the ARIA
+//! specification (KISA, v1.0) the RFC refers to: SB1(x) = A . x^-1 + 0x63 (the AES S-box, FIPS 197 5.1.1),
+//! SB2(x) = B . x^247 + 0xE2 over GF(2^8) = GF(2)[x]/(x^8+x^4+x^3+x+1), SB3 = SB1^-1, SB4 = SB2^-1.
+//! The unit tests compare the computed tables with entries printed in RFC 5794 section 2.4.2.
+//! The constants C1, C2, C3 (section 2.2) are typed in.
+
+// ------------------------------------------------------------------ GF(2^8) and the S-boxes (section 2.4.2)
+const fn gmul(a: u8, b: u8) -> u8 {
+    let mut a = a as u16;
+    let mut b = b;
+    let mut r = 0u16;
+    while b != 0 {
+        if b & 1 != 0 {
+            r ^= a;
+        }
+        a <<= 1;
+        if a & 0x100 != 0 {
+            a ^= 0x11B;
+        }
+        b >>= 1;
+    }
+    r as u8
+}
+/// x^254 = x^-1 (0 -> 0)
+const fn ginv(x: u8) -> u8 {
+    // 254 = 0b11111110
+    let x2 = gmul(x, x);
+    let x4 = gmul(x2, x2);
+    let x8 = gmul(x4, x4);
+    let x16 = gmul(x8, x8);
+    let x32 = gmul(x16, x16);
+    let x64 = gmul(x32, x32);
+    let x128 = gmul(x64, x64);
+    gmul(gmul(gmul(gmul(gmul(gmul(x2, x4), x8), x16), x32), x64), x128)
+}
+/// 8 x 8 bit matrix times bit vector; row i (given as a byte whose bit j is the coefficient of input bit j) gives output bit i.
+const fn mat_apply(rows: &[u8; 8], x: u8) -> u8 {
+    let mut y = 0u8;
+    let mut i = 0;
+    while i < 8 {
+        y |= (((rows[i] & x).count_ones() & 1) as u8) << i;
+        i += 1;
+    }
+    y
+}
+/// Affine matrix of SB1 (AES): b'_i = b_i + b_{i+4} + b_{i+5} + b_{i+6} + b_{i+7} (indices mod 8).
+const MAT_A: [u8; 8] = [0xF1, 0xE3, 0xC7, 0x8F, 0x1F, 0x3E, 0x7C, 0xF8];
+/// Affine matrix B of SB2 (ARIA specification), rows for output bits 0..7, coefficients of input bits 0..7:
+///   0 1 0 1 1 1 1 0 / 0 0 1 1 1 1 0 1 / 1 1 0 1 0 1 1 1 / 1 0 0 1 1 1 0 1 /
+///   0 0 1 0 1 1 0 0 / 1 0 0 0 0 0 0 1 / 0 1 0 1 1 1 0 1 / 1 1 0 1 0 0 1 1
+const MAT_B: [u8; 8] = [0x7A, 0xBC, 0xEB, 0xB9, 0x34, 0x81, 0xBA, 0xCB];
+
+const fn sb1_of(x: u8) -> u8 { mat_apply(&MAT_A, ginv(x)) ^ 0x63 }
+const fn sb2_of(x: u8) -> u8 {
+    // x^247 = (x^-1)^8
+    let i = ginv(x);
+    let i2 = gmul(i, i);
+    let i4 = gmul(i2, i2);
+    let i8 = gmul(i4, i4);
+    mat_apply(&MAT_B, i8) ^ 0xE2
+}
+const fn tabulate(which: u8) -> [u8; 256] {
+    let mut t = [0u8; 256];
+    let mut i = 0;
+    while i < 256 {
+        let x = i as u8;
+        match which {
+            1 => t[i] = sb1_of(x),
+            2 => t[i] = sb2_of(x),
+            3 => t[sb1_of(x) as usize] = x,
+            _ => t[sb2_of(x) as usize] = x,
+        }
+        i += 1;
+    }
+    t
+}
+pub const SB1: [u8; 256] = tabulate(1);
+pub const SB2: [u8; 256] = tabulate(2);
+/// SB3 = SB1^-1
+pub const SB3: [u8; 256] = tabulate(3);
+/// SB4 = SB2^-1
+pub const SB4: [u8; 256] = tabulate(4);
+
+// ------------------------------------------------------------------ section 2.2 constants
+pub const C1: u128 = 0x517cc1b727220a94fe13abe8fa9a6ee0;
+pub const C2: u128 = 0x6db14acc9e21c820ff28b1d5ef5de2b0;
+pub const C3: u128 = 0xdb92371d2126e9700324977504e8c90e;
+
+pub fn bytes(x: u128) -> [u8; 16] { x.to_be_bytes() }
+pub fn word(x: &[u8; 16]) -> u128 { u128::from_be_bytes(*x) }
+
+// ------------------------------------------------------------------ section 2.4.2 substitution layers
+/// SL1(x0 .. x15) = SB1(x0) SB2(x1) SB3(x2) SB4(x3) SB1(x4) ... SB4(x15)
+pub fn sl1(x128: u128) -> u128 {
+    let x = bytes(x128);
+    let mut y = [0u8; 16];
+    let mut i = 0;
+    while i < 4 {
+        y[4 * i] = SB1[x[4 * i] as usize];
+        y[4 * i + 1] = SB2[x[4 * i + 1] as usize];
+        y[4 * i + 2] = SB3[x[4 * i + 2] as usize];
+        y[4 * i + 3] = SB4[x[4 * i + 3] as usize];
+        i += 1;
+    }
+    word(&y)
+}
+/// SL2(x0 .. x15) = SB3(x0) SB4(x1) SB1(x2) SB2(x3) SB3(x4) ... SB2(x15)
+pub fn sl2(x128: u128) -> u128 {
+    let x = bytes(x128);
+    let mut y = [0u8; 16];
+    let mut i = 0;
+    while i < 4 {
+        y[4 * i] = SB3[x[4 * i] as usize];
+        y[4 * i + 1] = SB4[x[4 * i + 1] as usize];
+        y[4 * i + 2] = SB1[x[4 * i + 2] as usize];
+        y[4 * i + 3] = SB2[x[4 * i + 3] as usize];
+        i += 1;
+    }
+    word(&y)
+}
+
+// ------------------------------------------------------------------ section 2.4.3 diffusion layer
+/// A: (x0, ..., x15) -> (y0, ..., y15), the sixteen equations of the RFC.
+pub fn a_bytes(x: &[u8; 16]) -> [u8; 16] {
+    [
+        x[3] ^ x[4] ^ x[6] ^ x[8] ^ x[9] ^ x[13] ^ x[14],
+        x[2] ^ x[5] ^ x[7] ^ x[8] ^ x[9] ^ x[12] ^ x[15],
+        x[1] ^ x[4] ^ x[6] ^ x[10] ^ x[11] ^ x[12] ^ x[15],
+        x[0] ^ x[5] ^ x[7] ^ x[10] ^ x[11] ^ x[13] ^ x[14],
+        x[0] ^ x[2] ^ x[5] ^ x[8] ^ x[11] ^ x[14] ^ x[15],
+        x[1] ^ x[3] ^ x[4] ^ x[9] ^ x[10] ^ x[14] ^ x[15],
+        x[0] ^ x[2] ^ x[7] ^ x[9] ^ x[10] ^ x[12] ^ x[13],
+        x[1] ^ x[3] ^ x[6] ^ x[8] ^ x[11] ^ x[12] ^ x[13],
+        x[0] ^ x[1] ^ x[4] ^ x[7] ^ x[10] ^ x[13] ^ x[15],
+        x[0] ^ x[1] ^ x[5] ^ x[6] ^ x[11] ^ x[12] ^ x[14],
+        x[2] ^ x[3] ^ x[5] ^ x[6] ^ x[8] ^ x[13] ^ x[15],
+        x[2] ^ x[3] ^ x[4] ^ x[7] ^ x[9] ^ x[12] ^ x[14],
+        x[1] ^ x[2] ^ x[6] ^ x[7] ^ x[9] ^ x[11] ^ x[12],
+        x[0] ^ x[3] ^ x[6] ^ x[7] ^ x[8] ^ x[10] ^ x[13],
+        x[0] ^ x[3] ^ x[4] ^ x[5] ^ x[9] ^ x[11] ^ x[14],
+        x[1] ^ x[2] ^ x[4] ^ x[5] ^ x[8] ^ x[10] ^ x[15],
+    ]
+}
+pub fn a(x: u128) -> u128 { word(&a_bytes(&bytes(x))) }
+
+// ------------------------------------------------------------------ section 2.4.1 round functions
+/// FO(D, RK) = A(SL1(D ^ RK))
+pub fn fo(d: u128, rk: u128) -> u128 { a(sl1(d ^ rk)) }
+/// FE(D, RK) = A(SL2(D ^ RK))
+pub fn fe(d: u128, rk: u128) -> u128 { a(sl2(d ^ rk)) }
+
+// ------------------------------------------------------------------ section 2.2 key scheduling part
+/// Number of rounds for a key of `bits` bits: 12, 14, 16.
+pub const fn rounds(bits: usize) -> usize {
+    match bits {
+        128 => 12,
+        192 => 14,
+        _ => 16,
+    }
+}
+/// (CK1, CK2, CK3) by key size: 128: C1 C2 C3, 192: C2 C3 C1, 256: C3 C1 C2.
+pub const fn ck(bits: usize) -> (u128, u128, u128) {
+    match bits {
+        128 => (C1, C2, C3),
+        192 => (C2, C3, C1),
+        _ => (C3, C1, C2),
+    }
+}
+/// W0 = KL, W1 = FO(W0, CK1) ^ KR, W2 = FE(W1, CK2) ^ W0, W3 = FO(W2, CK3) ^ W1.
+pub fn w_of(kl: u128, kr: u128, bits: usize) -> [u128; 4] {
+    let (ck1, ck2, ck3) = ck(bits);
+    let w0 = kl;
+    let w1 = fo(w0, ck1) ^ kr;
+    let w2 = fe(w1, ck2) ^ w0;
+    let w3 = fo(w2, ck3) ^ w1;
+    [w0, w1, w2, w3]
+}
+/// ek1 .. ek17 (index 0 = ek1).  All seventeen are computed; ARIA-128 uses ek1..ek13, ARIA-192 ek1..ek15.
+pub fn enc_keys(w: &[u128; 4]) -> [u128; 17] {
+    let (w0, w1, w2, w3) = (w[0], w[1], w[2], w[3]);
+    [
+        w0 ^ w1.rotate_right(19),
+        w1 ^ w2.rotate_right(19),
+        w2 ^ w3.rotate_right(19),
+        w0.rotate_right(19) ^ w3,
+        w0 ^ w1.rotate_right(31),
+        w1 ^ w2.rotate_right(31),
+        w2 ^ w3.rotate_right(31),
+        w0.rotate_right(31) ^ w3,
+        w0 ^ w1.rotate_left(61),
+        w1 ^ w2.rotate_left(61),
+        w2 ^ w3.rotate_left(61),
+        w0.rotate_left(61) ^ w3,
+        w0 ^ w1.rotate_left(31),
+        w1 ^ w2.rotate_left(31),
+        w2 ^ w3.rotate_left(31),
+        w0.rotate_left(31) ^ w3,
+        w0 ^ w1.rotate_left(19),
+    ]
+}
+/// dk1 = ek_{n+1}, dk_i = A(ek_{n+2-i}) for 2 <= i <= n, dk_{n+1} = ek1   (n = number of rounds).
+pub fn dec_keys(ek: &[u128; 17], n: usize) -> [u128; 17] {
+    let mut dk = [0u128; 17];
+    dk[0] = ek[n];
+    let mut i = 1;
+    while i < 17 {
+        if i < n {
+            dk[i] = a(ek[n - i]);
+        }
+        i += 1;
+    }
+    dk[n] = ek[0];
+    dk
+}
+
+/// (KL, KR) from the key: KL || KR = K || 0...0.
+pub fn klkr(key: &[u8]) -> (u128, u128) {
+    let mut b = [0u8; 32];
+    let mut i = 0;
+    while i < 32 {
+        if i < key.len() {
+            b[i] = key[i];
+        }
+        i += 1;
+    }
+    let mut kl = 0u128;
+    let mut kr = 0u128;
+    let mut i = 0;
+    while i < 16 {
+        kl = (kl << 8) | b[i] as u128;
+        kr = (kr << 8) | b[16 + i] as u128;
+        i += 1;
+    }
+    (kl, kr)
+}
+/// Encryption round keys for a key of 16, 24 or 32 bytes.
+pub fn key_schedule(key: &[u8]) -> [u128; 17] {
+    let (kl, kr) = klkr(key);
+    enc_keys(&w_of(kl, kr, 8 * key.len()))
+}
+
+// ------------------------------------------------------------------ section 2.3 data randomizing part
+/// The common procedure of 2.3.1 / 2.3.2 with n rounds and round keys rk[0..=n]:
+/// P1 = FO(P, rk1), P2 = FE(P1, rk2), ..., P_{n-1} = FO(P_{n-2}, rk_{n-1}), C = SL2(P_{n-1} ^ rk_n) ^ rk_{n+1}.
+pub fn crypt(rk: &[u128], n: usize, p: u128) -> u128 {
+    let mut x = p;
+    let mut i = 1;
+    while i < 16 {
+        if i < n {
+            x = if i % 2 == 1 { fo(x, rk[i - 1]) } else { fe(x, rk[i - 1]) };
+        }
+        i += 1;
+    }
+    sl2(x ^ rk[n - 1]) ^ rk[n]
+}
+
+pub fn encrypt(key: &[u8], block: &[u8; 16]) -> [u8; 16] {
+    let n = rounds(8 * key.len());
+    bytes(crypt(&key_schedule(key), n, word(block)))
+}
+pub fn decrypt(key: &[u8], block: &[u8; 16]) -> [u8; 16] {
+    let n = rounds(8 * key.len());
+    bytes(crypt(&dec_keys(&key_schedule(key), n), n, word(block)))
+}
+pub fn encrypt_128(key: &[u8; 16], block: &[u8; 16]) -> [u8; 16] { encrypt(key, block) }
+pub fn decrypt_128(key: &[u8; 16], block: &[u8; 16]) -> [u8; 16] { decrypt(key, block) }
+pub fn encrypt_192(key: &[u8; 24], block: &[u8; 16]) -> [u8; 16] { encrypt(key, block) }
+pub fn decrypt_192(key: &[u8; 24], block: &[u8; 16]) -> [u8; 16] { decrypt(key, block) }
+pub fn encrypt_256(key: &[u8; 32], block: &[u8; 16]) -> [u8; 16] { encrypt(key, block) }
+pub fn decrypt_256(key: &[u8; 32], block: &[u8; 16]) -> [u8; 16] { decrypt(key, block) }
+
+#[cfg(test)]
+mod tests {
+    use super::*;
+
+    fn hex<const N: usize>(s: &str) -> [u8; N] {
+        let b = s.as_bytes();
+        let mut out = [0u8; N];
+        let mut i = 0;
+        while i < N {
+            let h = (b[2 * i] as char).to_digit(16).unwrap() as u8;
+            let l = (b[2 * i + 1] as char).to_digit(16).unwrap() as u8;
+            out[i] = (h << 4) | l;
+            i += 1;
+        }
+        out
+    }
+    const PT: &str = "00112233445566778899aabbccddeeff";
+
+    /// RFC 5794 appendix A.1
+    #[test]
+    fn rfc5794_a1() {
+        let k: [u8; 16] = hex("000102030405060708090a0b0c0d0e0f");
+        let (p, c): ([u8; 16], [u8; 16]) = (hex(PT), hex("d718fbd6ab644c739da95f3be6451778"));
+        assert_eq!(encrypt_128(&k, &p), c);
+        assert_eq!(decrypt_128(&k, &c), p);
+    }
+    /// appendix A.2
+    #[test]
+    fn rfc5794_a2() {
+        let k: [u8; 24] = hex("000102030405060708090a0b0c0d0e0f1011121314151617");
+        let (p, c): ([u8; 16], [u8; 16]) = (hex(PT), hex("26449c1805dbe7aa25a468ce263a9e79"));
+        assert_eq!(encrypt_192(&k, &p), c);
+        assert_eq!(decrypt_192(&k, &c), p);
+    }
+    /// appendix A.3
+    #[test]
+    fn rfc5794_a3() {
+        let k: [u8; 32] = hex("000102030405060708090a0b0c0d0e0f101112131415161718191a1b1c1d1e1f");
+        let (p, c): ([u8; 16], [u8; 16]) = (hex(PT), hex("f92bd7c79fb72e2f2b8f80c1972d24fc"));
+        assert_eq!(encrypt_256(&k, &p), c);
+        assert_eq!(decrypt_256(&k, &c), p);
+    }
+    /// first and last rows of the four tables printed in section 2.4.2
+    #[test]
+    fn sbox_rows() {
+        assert_eq!(SB1[..8], [0x63, 0x7c, 0x77, 0x7b, 0xf2, 0x6b, 0x6f, 0xc5]);
+        assert_eq!(SB1[248..], [0x41, 0x99, 0x2d, 0x0f, 0xb0, 0x54, 0xbb, 0x16]);
+        assert_eq!(SB2[..8], [0xe2, 0x4e, 0x54, 0xfc, 0x94, 0xc2, 0x4a, 0xcc]);
+        assert_eq!(SB2[248..], [0x89, 0xde, 0x71, 0x1a, 0xaf, 0xba, 0xb5, 0x81]);
+        assert_eq!(SB3[..8], [0x52, 0x09, 0x6a, 0xd5, 0x30, 0x36, 0xa5, 0x38]);
+        assert_eq!(SB3[248..], [0xe1, 0x69, 0x14, 0x63, 0x55, 0x21, 0x0c, 0x7d]);
+        assert_eq!(SB4[..8], [0x30, 0x68, 0x99, 0x1b, 0x87, 0xb9, 0x21, 0x78]);
+        assert_eq!(SB4[248..], [0xf7, 0x4c, 0x11, 0x33, 0x03, 0xa2, 0xac, 0x60]);
+        let mut x = 0;
+        while x < 256 {
+            assert_eq!(SB3[SB1[x] as usize] as usize, x);
+            assert_eq!(SB4[SB2[x] as usize] as usize, x);
+            x += 1;
+        }
+    }
+    /// A is an involution (stated in section 2.4.3) and linear
+    #[test]
+    fn a_involution() {
+        let mut x = 0x0123456789abcdef_fedcba9876543210u128;
+        let mut i = 0;
+        while i < 1000 {
+            assert_eq!(a(a(x)), x);
+            assert_eq!(a(x ^ C1), a(x) ^ a(C1));
+            x = x.wrapping_mul(0x2360ED051FC65DA44385DF649FCCF645).wrapping_add(0x5851F42D4C957F2D14057B7EF767814F);
+            i += 1;
+        }
+    }
+}
